@@ -59,17 +59,25 @@ fn try_candidate(cand: &Value, pred: &mut dyn FnMut(&Scenario) -> bool) -> Optio
 
 /// Returns the smallest scenario found for which `pred` holds. `pred(sc)` must hold initially.
 pub fn shrink(sc: &Scenario, pred: &mut dyn FnMut(&Scenario) -> bool, max_tests: usize) -> (Scenario, usize) {
+    // shrinking is a convenience, never worth a watchdog: it also stops after a wall-clock budget
+    // (cases with real sleeps or real threads can take a second each)
+    let t0 = std::time::Instant::now();
+    let budget = std::time::Duration::from_secs(120);
+    let mut max_tests = max_tests;
     let mut best = serde_json::to_value(sc).unwrap();
     let mut tests = 0usize;
     let mut progress = true;
     while progress && tests < max_tests {
+        if t0.elapsed() > budget {
+            max_tests = tests;
+        }
         progress = false;
         let mut ps = vec![];
         paths(&best, &mut vec![], &mut ps);
         // larger structures first: arrays near the root
         ps.sort_by_key(|p| p.len());
         for p in ps {
-            if tests >= max_tests {
+            if tests >= max_tests || t0.elapsed() > budget {
                 break;
             }
             let mut cur = best.clone();
